@@ -287,6 +287,7 @@ func keyHash(k string) [16]byte {
 func maxEvals(r int) int { return 20 * r }
 
 type workerState struct {
+	sampleBest  int
 	visited     map[[16]byte]uint8
 	visitedFile string
 }
@@ -338,6 +339,7 @@ func (ws *workerState) serve(rq *request) *response {
 		skip[x] = true
 	}
 	if rq.Op == "expand" {
+		ws.sampleBest = 0
 		rp.ByClass = map[string]int{}
 		rp.OutHist = map[string]int{}
 		for i, k := range rq.Keys {
@@ -492,7 +494,8 @@ func (ws *workerState) expand(rq *request, rp *response, s *State, key string, i
 				rp.Succ = append(rp.Succ, succRec{o.SuccKey, i, idx})
 			}
 		}
-		if rq.N > 0 && idx == 0 && rp.Sample == nil && i == rq.N%len(evs) { // the parent asked for a sample of this batch
+		if rq.N > 0 && len(res.Outcomes) > ws.sampleBest { // the parent asked for a sample of this batch: the case with most distinct plans
+			ws.sampleBest = len(res.Outcomes)
 			rp.Sample = mkSample(s, e, res)
 		}
 	}
